@@ -453,8 +453,12 @@ impl cob::store::Cob for Thread {
     ) -> Result<(), Error> {
         let identity = op.identity.ok_or(Error::MissingIdentity)?;
         let concurrent = concurrent.into_iter().collect::<Vec<_>>();
+        // Apply the actions to a copy of the state, so that an operation
+        // which fails half-way through doesn't take partial effect.
+        let mut next = self.clone();
+
         for action in op.actions {
-            self.action(
+            next.action(
                 action,
                 op.id,
                 op.author,
@@ -464,6 +468,8 @@ impl cob::store::Cob for Thread {
                 repo,
             )?;
         }
+        *self = next;
+
         Ok(())
     }
 }
